@@ -26,7 +26,7 @@ import (
 
 func init() { checks["c12srv"] = checkC12Srv }
 
-var c12Names = []string{"a", "ab", "abc", "b", "ba", "a*b", "a?c", "a[b]", `a\b`, "A", "a-b", "^a", "bb"}
+var c12Names = []string{"a", "ab", "abc", "b", "ba", "a*b", "a?c", "a[b]", `a\b`, "A", "a-b", "^a", "bb", "é", "aé", "bü1"}
 
 // value kinds for WHERE: rank, numeric value, string
 type c12Val struct {
@@ -78,7 +78,7 @@ func checkC12Srv(job *Job, res *Result) {
 		}
 	}
 	gp(nil)
-	pats = append(pats, "[a-b]*", "[^a]*", `a\*b`, `a\?c`, `a\[b\]`, `a\\b`, "*b", "?", "??", "a*b*", `\a*`, "[ab][ab]")
+	pats = append(pats, "[a-b]*", "[^a]*", `a\*b`, `a\?c`, `a\[b\]`, `a\\b`, "*b", "?", "??", "a*b*", `\a*`, "[ab][ab]", "[é]", "[à-ü]*", "a[^0-9]", "b[^0-9]1", "[^a]", "?[é]", "a?", "b?1", "[a-é]*")
 	x := runExec(job, freezeAllBut(), func(x *Exec) {
 		in := x.Start("L", x.dir+"/L", 9001, nil)
 		c := x.Dial(in.Addr)
@@ -407,8 +407,14 @@ func checkC12Srv(job *Job, res *Result) {
 			{"WHEREEVAL", "return FIELDS.f == 1", "0"}}
 		// the same questions in three states of the collection: as built; after ids
 		// changed kind (string <-> geometry) and two strings share a value; after deletions
-		for phase := 0; phase < 3; phase++ {
+		for phase := 0; phase < 4; phase++ {
 			switch phase {
+			case 3:
+				// strings written again with the value they already have but other fields,
+				// and a field edit of a string: the value order is unchanged, the objects are not
+				c.Do("SET", "mix", "m3", "FIELD", "f", "1", "STRING", "s6")
+				c.Do("FSET", "mix", "m5", "f", "1")
+				c.Do("SET", "mix", "m9", "FIELD", "f", "2", "STRING", "s6")
 			case 1:
 				c.Do("SET", "mix", "m0", "FIELD", "f", "0", "STRING", "s6")
 				c.Do("SET", "mix", "m1", "FIELD", "f", "1", "POINT", "1", "1")
@@ -419,6 +425,33 @@ func checkC12Srv(job *Job, res *Result) {
 				c.Do("DEL", "mix", "m4")
 				c.Do("SET", "mix", "m7", "FIELD", "f", "1", "POINT", "7", "1")
 				c.Do("SET", "mix", "m9", "FIELD", "f", "1", "STRING", "s6")
+			}
+			// SEARCH walks the value index, SCAN the id index: with the same field filter
+			// SEARCH must select exactly the strings SCAN selects
+			{
+				isStr := map[string]bool{}
+				for _, id := range listOf(c.Do("SEARCH", "mix", "LIMIT", "1000", "IDS")) {
+					isStr[id] = true
+				}
+				for _, f := range filters {
+					if len(f) > 0 && f[0] == "MATCH" {
+						continue // MATCH means ids for SCAN and values for SEARCH
+					}
+					var want []string
+					for _, id := range listOf(c.Do(append(append([]string{"SCAN", "mix", "LIMIT", "1000"}, f...), "IDS")...)) {
+						if isStr[id] {
+							want = append(want, id)
+						}
+					}
+					got := listOf(c.Do(append(append([]string{"SEARCH", "mix", "LIMIT", "1000"}, f...), "IDS")...))
+					sort.Strings(got)
+					sort.Strings(want)
+					res.Evaluations++
+					res.DistinctS(fmt.Sprint("search-vs-scan", phase, len(f), len(want)))
+					if strings.Join(got, " ") != strings.Join(want, " ") {
+						res.Violate("C12/search-vs-scan", fmt.Sprintf("phase %d: SEARCH mix %v IDS selects %v, the strings SCAN mix %v IDS selects are %v", phase, f, got, f, want), map[string]any{"filter": f, "phase": phase})
+					}
+				}
 			}
 			for _, cmd := range []string{"SCAN", "SEARCH", "WITHIN", "INTERSECTS", "NEARBY"} {
 				area := []string{}
